@@ -5,3 +5,8 @@ import Props.C06
 #print axioms Webauthn.Props.C06.append_inj_right_len
 #print axioms Webauthn.Props.C06.bitflip_reg_packed_self
 #print axioms Webauthn.Props.C06.authData_of_raw
+#print axioms Webauthn.Props.C06.sig_same_data_same
+#print axioms Webauthn.Props.C06.bitflip_reg_direct_signature
+#print axioms Webauthn.Props.C06.bitflip_reg_tpm
+#print axioms Webauthn.Props.C06.bitflip_reg_apple
+#print axioms Webauthn.Props.C06.bitflip_reg_u2f
